@@ -657,6 +657,11 @@ def _fmt_fn(tag, sort):
     return _fmt_fns[tag]
 
 
+def fmt_term(t, spec="", conversion=-1):
+    """the string an f-string produces for a value of a non-string sort (uninterpreted, one function per sort/spec)"""
+    return _fmt_fn(f"{t.sort()}|{spec}|{conversion}", t.sort())(t)
+
+
 def _restore(st, name, saved):
     if saved is _MISSING:
         st.env.pop(name, None)
